@@ -6,14 +6,19 @@
     R <id> <tree> <obj> <buffer-hex>
         the same with a runtime object (the harness walks its compiled tree number <id>,
         which must have the shape <tree>, configured as <obj>).
+    trailing tokens:  sz=<n>   the `buffer_size` argument (default: the size of the block); the
+                               model never looks at it (fixes/C09-enabled-loc-copy-size.patch)
+                      opt=<i.j.k>:<address-hex>{,…}   reports the statement leaves open (the
+                               toggle of a table that is switched off): one report of each
+                               listed pair is dropped from the output on both sides
   <tree> ::= '[' [ port { ',' port } ] ']'      port ::= <name-hex> ';' <meta> ';' ( '0' | <tree> )
   <meta> ::= 'N' (NULL) | <block-hex>
   <obj>  ::= '{' <toggles> '|' <kids> '}'
-  <toggles> ::= '-' | <name-hex> '=' ('0'|'1') { ',' … }
+  <toggles> ::= '-' | <name-hex> '=' ('0'|'1'|'i'<decimal>) { ',' … }     (toggle / integer parameter)
   <kids>    ::= '-' | <rel-address-hex> '=' ( 'N' | <obj> ) { ',' … }
   Output:
     W <n> <calls> B=<string in the buffer afterwards, hex>      | W oob | W undef
-    <calls> ::= '-' | call { ',' call }
+    <calls> ::= '-' | call { ',' call }          sorted as strings: the property fixes no order
     call ::= <i.j.k> ':' <address-hex> [ '>' ( '-' | <i.j.k> { '+' <i.j.k> } | 'oob' ) ]
   The part behind '>' (default options only) lists the leaf ports whose callbacks run when the
   address — without the prefix the buffer started with — is sent back as a message carrying
@@ -73,14 +78,26 @@ partial def parseObj : P → Option (Obj × P)
       | _ => none
     | _ => none
   | _ => none
-partial def parseToggles : P → Option (List (Bytes × Bool) × P)
+partial def parseToggles : P → Option (List (Bytes × Ans) × P)
   | '-' :: r => some ([], r)
   | cs => parseToggleList cs []
-partial def parseToggleList (cs : P) (acc : List (Bytes × Bool)) : Option (List (Bytes × Bool) × P) :=
+partial def parseToggleList (cs : P) (acc : List (Bytes × Ans)) : Option (List (Bytes × Ans) × P) :=
   let (n, r1) := takeTok (· == '=') cs
   match ofHex n, r1 with
+  | some name, '=' :: 'i' :: r2 =>
+    -- an integer parameter: i<decimal>
+    let (neg, r3) := match r2 with
+      | '-' :: r => (true, r)
+      | r => (false, r)
+    let ds := r3.takeWhile Char.isDigit
+    if ds.isEmpty then none else
+      let v : Int := Int.ofNat (ds.foldl (fun a c => 10 * a + (c.toNat - 48)) 0)
+      let acc' := (name, Ans.i (if neg then -v else v)) :: acc
+      match r3.dropWhile Char.isDigit with
+      | ',' :: r4 => parseToggleList r4 acc'
+      | r4 => some (acc'.reverse, r4)
   | some name, '=' :: v :: r2 =>
-    let acc' := (name, v == '1') :: acc
+    let acc' := (name, if v == '1' then Ans.T else Ans.F) :: acc
     match r2 with
     | ',' :: r3 => parseToggleList r3 acc'
     | _ => some (acc'.reverse, r2)
@@ -135,15 +152,36 @@ def showDisp (tab : List PortT) (prefLen : Nat) (c : Call) : String :=
     | some [] => "-"
     | some l => "+".intercalate (l.map showIx)
 
-def showCalls (tab : List PortT) (prefLen : Option Nat) (cs : List Call) : String :=
-  if cs.isEmpty then "-" else
-    ",".intercalate (cs.map fun c =>
-      showIx c.1 ++ ":" ++ toHex c.2 ++
-        (match prefLen with
-         | none => ""
-         | some n => ">" ++ showDisp tab n c))
+/-- the reports the statement leaves open (token `opt=`): `<i.j.k>:<address-hex>` each -/
+def optPairs (toks : List String) : List String :=
+  toks.flatMap fun t =>
+    if t.startsWith "opt=" then
+      let l := (t.drop 4).toString
+      if l == "-" then [] else l.splitOn ","
+    else []
 
-def run (tab : List PortT) (rt : Option Obj) (buf : Bytes) (o : Opts) : String :=
+def eraseFirst (p : String → Bool) : List String → List String
+  | [] => []
+  | c :: r => if p c then r else c :: eraseFirst p r
+
+def callKey (c : Call) : String := showIx c.1 ++ ":" ++ toHex c.2
+
+/-- the calls as a sorted list (the statement fixes no order) without one report of every pair
+    in `opt` -/
+def showCalls (tab : List PortT) (prefLen : Option Nat) (opt : List String) (cs : List Call) : String × Nat :=
+  let keyed := cs.map fun c => (callKey c, c)
+  let kept := opt.foldl (fun (l : List (String × Call)) o =>
+    match l.findIdx? (fun kc => kc.1 == o) with
+    | some i => l.eraseIdx i
+    | none => l) keyed
+  let strs := kept.map fun (k, c) =>
+    k ++ (match prefLen with
+          | none => ""
+          | some n => ">" ++ showDisp tab n c)
+  let sorted := (strs.toArray.qsort (· < ·)).toList
+  (if sorted.isEmpty then "-" else ",".intercalate sorted, sorted.length)
+
+def run (tab : List PortT) (rt : Option Obj) (buf : Bytes) (o : Opts) (opt : List String) : String :=
   -- the prefix the buffer starts with (the root '/' for an empty buffer)
   let prefLen : Option Nat :=
     if o.expand && !o.ranges then
@@ -158,17 +196,18 @@ def run (tab : List PortT) (rt : Option Obj) (buf : Bytes) (o : Opts) : String :
     let after := match cstrAt b 0 with
       | .ok s => toHex s
       | .error _ => "oob"
-    s!"W {cs.length} {showCalls tab prefLen cs} B={after}"
+    let (txt, n) := showCalls tab prefLen opt cs
+    s!"W {n} {txt} B={after}"
 
 def step (line : String) : String :=
   match words line with
-  | "W" :: t :: b :: f :: _ =>
+  | "W" :: t :: b :: f :: rest =>
     match parseTree t, ofHex b, f.toList with
-    | some tab, some buf, [e, r] => run tab none buf { expand := e == '1', ranges := r == '1' }
+    | some tab, some buf, [e, r] => run tab none buf { expand := e == '1', ranges := r == '1' } (optPairs rest)
     | _, _, _ => "bad-op"
-  | "R" :: _ :: t :: o :: b :: _ =>
+  | "R" :: _ :: t :: o :: b :: rest =>
     match parseTree t, parseObjStr o, ofHex b with
-    | some tab, some obj, some buf => run tab (some obj) buf {}
+    | some tab, some obj, some buf => run tab (some obj) buf {} (optPairs rest)
     | _, _, _ => "bad-op"
   | _ => "bad-op"
 
